@@ -964,6 +964,62 @@ def part_b(ck, S, g, exe_rel, exe_fuzz):
               dict(xml=show(rep_doc.render()), message=rb.perr, conformance_errors=g.doc_errors(rep_doc)))
     return msg
 
+  # ---- hostile values (b1): an accepted minimal instance with one attribute (or all attributes of one type) set to a value
+  # at the edge of / outside its type. Only "never crashes / never terminates" is judged here, not the accept/reject verdict.
+  LONGLIST = ' '.join(['1'] * 600)
+  HOSTILE = dict(
+      text=['%s%s%s%s%s%s%s%s%n', 'A' * 3000, ''],
+      int=['-1', '2147483647', '-2147483648', '65536', '99999999999', '0'],
+      real=['1e308', '-1e308', '1e-320', 'nan', 'inf', '1e999', '0'],
+      key=['', ' '])
+  hostile_stats = collections.Counter()
+
+  def hostile_class(a):
+    if a.type in ('string', 'ref', 'id', 'file', 'chars'):
+      return 'text'
+    if a.type == 'int':
+      return 'int'
+    if a.type in ('double', 'float'):
+      return 'real'
+    return 'key'
+
+  def hostile_run(d2, what):
+    xml = d2.render()
+    r = run(xml, parse_only=(hostile_stats['docs'] % 4 != 0))
+    hostile_stats['docs'] += 1
+    if handle_common(S, r, xml, 'schema-doc/hostile:' + what):
+      hostile_stats['crash-or-escape'] += 1
+    ck.case(nontrivial=False, labels=['b1:hostile'])
+
+  def hostile_sweep(ctx, doc, node):
+    full = not ck.quick
+    for a in ctx.attrs:
+      vals = HOSTILE[hostile_class(a)]
+      if not full:
+        vals = [vals[(sweep_rng.randrange(len(vals)))]]
+        if a.type in ('double', 'float', 'int') and sweep_rng.random() < 0.2:
+          vals = [LONGLIST]
+      elif a.type in ('double', 'float', 'int'):
+        vals = vals + [LONGLIST]
+      for v in vals:
+        d2, memo = doc.clone()
+        n = a.arity.lo if a.type in ('double', 'float', 'int') and v != LONGLIST else 1
+        memo[id(node)].set(a.name, ' '.join([v] * max(1, n)))
+        hostile_run(d2, '%s.%s' % (ctx.elemkey(), a.name))
+    # all attributes of one class at once (sizes that overflow when multiplied, size/data pairs, ...)
+    for cls, v in (('int', '-1'), ('int', '65536'), ('int', '2147483647'), ('real', '1e308'), ('real', 'nan')):
+      tg = [a for a in ctx.attrs if hostile_class(a) == cls]
+      if len(tg) < 2 and cls == 'real':
+        continue
+      d2, memo = doc.clone()
+      n2 = memo[id(node)]
+      for a in tg:
+        n2.set(a.name, ' '.join([v] * max(1, a.arity.lo)))
+      for a in ctx.attrs:
+        if a.type == 'string' and cls == 'int':
+          n2.set(a.name, LONGLIST)
+      hostile_run(d2, '%s.all-%s=%s' % (ctx.elemkey(), cls, v))
+
   sweep_rng = random.Random(ck.seed * 31 + 5)
   nsweep = 0
   for ctx in g.ctx_list:
@@ -997,6 +1053,7 @@ def part_b(ck, S, g, exe_rel, exe_fuzz):
     else:
       stats['b0_contexts_never_accepted'] += 1
       continue
+    hostile_sweep(ctx, doc, node)
     for a in ctx.attrs:
       if node.has(a.name):
         continue
@@ -1021,6 +1078,8 @@ def part_b(ck, S, g, exe_rel, exe_fuzz):
       conforming_verdict(d2, r1, xml, labels, 'attribute %s added to a minimal %s' % (a.name, ctx.key))
       ck.case(nontrivial=False, labels=labels)
   stats['b0_documents'] = nsweep
+  stats['b1_hostile_documents'] = hostile_stats['docs']
+  stats['b1_hostile_crash_or_escape'] = hostile_stats['crash-or-escape']
 
   # ---- order of violation tests: every site of the small kinds once, then samples of the big kinds
   order_rng = random.Random(ck.seed)
